@@ -21,8 +21,8 @@ SPEC = {
             "variables and FB members; VAR_ACCESS; VAR_CONFIG values; tasks with SINGLE/INTERVAL and FB task "
             "bindings) x history of 12-16 steps over cycle(dt) / direct input write / restart(cold|warm) / "
             "restart+load / fault / access write / save / power cycle (new runtime + store [+ start-up restart] + "
-            "load); after every cold restart a freshly built twin receives the same continuation.  Cases 0-5 are "
-            "the recorded witnesses of the known findings.  non-trivial = a restart or power cycle happened after "
+            "load); after every cold restart a freshly built twin receives the same continuation.  Cases 0-6 are "
+            "the recorded witnesses of the known findings (1 and 2: regression cases of fixed ones).  non-trivial = a restart or power cycle happened after "
             "at least one executed cycle; distinct = by hash of the case's description + operation lines",
     "trusted_base": [
         "Lean 4.33.0 kernel; axioms per theorem listed under 'theorems'",
@@ -41,7 +41,7 @@ SPEC = {
         "class / interface variables, no FB inheritance",
         "program bodies are straight-line typed assignments, NOT, typed-literal increments and FB calls; values "
         "stay inside their type's range (overflow is C01's subject)",
-        "the %I image belongs to the environment: the fresh twin is given the restarted runtime's input image",
+        "restart(Cold) zeroes the %I image as well; the twin therefore starts from its own zero image",
         "FB members: the property's parenthesis names global and program-level variables; for members the oracle "
         "uses the IEC 61131-3 rule (member qualifier, else qualifier of the instance variable)",
     ],
@@ -57,28 +57,34 @@ MANIFEST = {
                   "c09_warm_program_vars_kept/_reset via c09_program_var): after restart(Warm) exactly the RETAIN/PERSISTENT "
                   "globals and program variables with retainable values keep their value, every other one has its declared "
                   "initial value; c09_cold_globals / c09_cold_program_vars: cold = declared initial values; "
-                  "c09_restart_resets: time, fault latch, cycle counter, frames, task state reset, everything static "
-                  "untouched; c09_old_instances_untouched and c09_program_fb_recreated: what happens to FB instances; "
-                  "c09_cold_fresh_partial: under the guards (no VAR_CONFIG values, SINGLE initial values FALSE, %Q/%M images "
-                  "zero) a cold restart and a fresh build agree on every variable path, FB member, clock, latch, counter and "
-                  "task state; c09_bindings_live_partial: bindings rooted in globals stay connected; "
-                  "c09_power_cycle_globals_partial: save+load moves exactly the retained retainable GLOBALS. The violated "
-                  "clauses are refuted on concrete witnesses inside the model (c09_counterexample_bindings, _last_single, "
-                  "_images, _config_init, _fb_member, _power_cycle; kernel-evaluated) and the same six witnesses are "
-                  "replayed on the real runtime in every run (cases 0-5). Each run compares model and runtime step by step "
-                  "on generated projects/histories, including a freshly built twin after every cold restart.",
-    "level_note": "Six OPEN known findings (known_findings.json): restart re-creates instances so I/O, VAR_ACCESS and task-FB "
-                  "bindings go stale; cold restart leaves last_single=false; %Q/%M images survive; the retain snapshot covers "
-                  "globals only; FB-member RETAIN is ignored (program level) or over-applied (RETAIN global FB); VAR_CONFIG "
-                  "values are lost by any restart.  The model reproduces these defects (it is faithful to the code), so a "
-                  "repair of any of them shows up as a model/implementation disagreement until the model is updated.  "
-                  "'Same outputs for every continuation' is proved only as equality of the state every cycle reads "
-                  "(observation by path) under the guards; that equal observations give equal continuations is tested by "
-                  "the twin run, not proved (the cycle model is test scaffolding for straight-line programs).  Trusted: Lean "
-                  "kernel, the hand-written model (validated only by the differential run, whose generator bounds what it "
-                  "sees: no overflow, no REF_TO, FB nesting depth 1), retain codec = identity (C10).  The threaded resource "
-                  "loop of scheduler.rs and run.rs start-up are not executed; their restart step (restart then "
-                  "load_retain_store) is replayed through the same public calls.",
+                  "c09_restart_resets: time, fault latch, cycle counter, frames reset, task state re-seeded as at "
+                  "registration, images untouched by Warm and zeroed by Cold, everything static untouched; "
+                  "c09_old_instances_untouched and c09_program_fb_recreated: what happens to FB instances; "
+                  "c09_cold_fresh_partial: with no VAR_CONFIG values (the only remaining guard) a cold restart and a fresh "
+                  "build agree on every variable path, FB member, clock, latch, counter, task state (any SINGLE initial "
+                  "value) and on all three process images; c09_bindings_live_partial: bindings rooted in globals stay "
+                  "connected; c09_power_cycle_globals_partial: save+load moves exactly the retained retainable GLOBALS; "
+                  "c09_warm_restart_load_partial: restart(Warm)+load keeps the warm clause when the file was saved from the "
+                  "restarted state. The violated clauses are refuted on concrete witnesses inside the model "
+                  "(c09_counterexample_bindings, _config_init, _fb_member, _power_cycle, _warm_rollback; kernel-evaluated), "
+                  "the two repaired ones are kept as agreeing regression witnesses (c09_witness_last_single_agrees, "
+                  "c09_witness_images_agrees), and all seven projects are replayed on the real runtime in every run "
+                  "(cases 0-6). Each run compares model and runtime step by step on generated projects/histories, including "
+                  "a freshly built twin after every cold restart.",
+    "level_note": "Five OPEN known findings (known_findings.json): restart re-creates instances so I/O, VAR_ACCESS and task-FB "
+                  "bindings go stale; the retain snapshot covers globals only; FB-member RETAIN is ignored (program level) or "
+                  "over-applied (RETAIN global FB); VAR_CONFIG values are lost by any restart; the restart step of the "
+                  "resource loop reloads the store without saving first (warm restart rolls RETAIN globals back).  Two are "
+                  "FIXED (last_single seeding 5436414, cold restart zeroes the images d6c1b45); their witnesses are "
+                  "regression cases whose divergence is a violation.  The model reproduces the open defects (it is faithful "
+                  "to the code), so a repair of any of them shows up as a model/implementation disagreement until the model "
+                  "is updated.  'Same outputs for every continuation' is proved only as equality of the state every cycle "
+                  "reads (observation by path); that equal observations give equal continuations is tested by the twin "
+                  "run, not proved (the cycle model is test scaffolding for straight-line programs).  Trusted: Lean kernel, "
+                  "the hand-written model (validated only by the differential run, whose generator bounds what it sees: no "
+                  "overflow, no REF_TO, FB nesting depth 1), retain codec = identity (C10).  The threaded resource loop of "
+                  "scheduler.rs and run.rs start-up are not executed; their restart step (restart then load_retain_store) "
+                  "is replayed through the same public calls.",
 }
 
 _SIG = re.compile(r"^#o known (\S+) (.*)$")
